@@ -1,6 +1,6 @@
 //! C18 — port objects perform exactly one access of their width on their port (E4).
 use crate::out::*;
-use crate::simcpu::{cpu, run_fault, run_stepped, Ev};
+use crate::simcpu::{cpu, fault_mode_on, run_stepped, run_window, Ev};
 use crate::Args;
 use x86_64::instructions::port::{Port, PortGeneric, PortReadOnly, PortWriteOnly, ReadWriteAccess};
 
@@ -8,7 +8,9 @@ const VALS: [u32; 6] = [0, 0xffff_ffff, 0x8040_2010, 0x0102_0408, 0xdead_beef, 0
 
 fn one<R>(step: bool, f: impl FnOnce() -> R) -> (Result<R, ()>, Vec<Ev>) {
     cpu().clear_events();
-    let r = if step { run_stepped(f) } else { run_fault(f) };
+    // fault mode stays on for the whole sweep (fault_mode_on): an access that the optimiser moved out of the call
+    // is still emulated, but then it is missing from this call's event window
+    let r = if step { let x = run_stepped(f); fault_mode_on(); x } else { run_window(f) };
     (r, cpu().evs())
 }
 
@@ -63,6 +65,56 @@ pub fn port_case(r: &mut Rep, port: u16, step: bool) {
     width!(u32, 32, 0xffff_ffff);
 }
 
+/// multi-step sequences: every read is a separate device access (a device register may change between reads),
+/// a read whose value is discarded is still performed, accesses keep their program order
+pub fn sequences(r: &mut Rep, port: u16, step: bool) {
+    macro_rules! seq {
+        ($ty:ty, $bits:expr, $mask:expr) => {{
+            let c = cpu();
+            c.port_in = 0x1111_1101;
+            c.port_in_step = 0x0101_0101;
+            let mut p = Port::<$ty>::new(port);
+            let (rv, ev) = one(step, || unsafe {
+                let a = p.read();
+                let b = p.read();
+                let c = p.read();
+                (a, b, c)
+            });
+            r.ev(true);
+            r.transitions += ev.len() as u64;
+            let e = [0x1111_1101u32 & $mask, 0x1212_1202 & $mask, 0x1313_1303 & $mask];
+            let case = format!("portseq {} {} reads {}", port, $bits, step);
+            if ev != [Ev::In(port, $bits, e[0]), Ev::In(port, $bits, e[1]), Ev::In(port, $bits, e[2])] {
+                r.viol(&format!("C18|Port<u{}>::read|repeated-reads-are-not-one-port-instruction-each", $bits), &case, &format!("{:x?}", ev));
+            } else if rv != Ok((e[0] as $ty, e[1] as $ty, e[2] as $ty)) {
+                r.viol(&format!("C18|Port<u{}>::read|returns-other-value-than-the-device-supplied", $bits), &case, &format!("{:x?}", rv));
+            }
+            // out ; read (value discarded) ; out ; read ; out
+            c.port_in = 0x7700_0077;
+            c.port_in_step = 1;
+            let mut q = Port::<$ty>::new(port ^ 1);
+            let (_, ev) = one(step, || unsafe {
+                p.write(0x5a as $ty);
+                let _ = q.read();
+                p.write(0xa5 as $ty);
+                let v = q.read();
+                p.write(v);
+            });
+            r.ev(true);
+            r.transitions += ev.len() as u64;
+            let case = format!("portseq {} {} ack {}", port, $bits, step);
+            let exp = [Ev::Out(port, $bits, 0x5a), Ev::In(port ^ 1, $bits, 0x7700_0077 & $mask), Ev::Out(port, $bits, 0xa5), Ev::In(port ^ 1, $bits, 0x7700_0078 & $mask), Ev::Out(port, $bits, 0x7700_0078 & $mask)];
+            if ev != exp {
+                r.viol(&format!("C18|Port<u{}>|sequence-of-accesses-not-performed-one-by-one-in-order", $bits), &case, &format!("{:x?}", ev));
+            }
+            c.port_in_step = 0;
+        }};
+    }
+    seq!(u8, 8, 0xff);
+    seq!(u16, 16, 0xffff);
+    seq!(u32, 32, 0xffff_ffff);
+}
+
 fn eq_clone(r: &mut Rep) {
     let mut set: Vec<u16> = vec![0, 1, 0xff, 0x100, 0x3f8, 0xcf8, 0xcfc, 0x7fff, 0x8000, 0xfffe, 0xffff];
     for b in 0..16 {
@@ -94,8 +146,11 @@ pub fn run(a: &Args) {
     let mut r = Rep::new("C18", "ports");
     if let Some(c) = &a.replay {
         let t: Vec<&str> = c.split_whitespace().collect();
+        fault_mode_on();
         if t[0] == "port" {
             port_case(&mut r, t[1].parse().unwrap(), t[4] == "true");
+        } else if t[0] == "portseq" {
+            sequences(&mut r, t[1].parse().unwrap(), t[4] == "true");
         } else {
             eq_clone(&mut r);
         }
@@ -103,9 +158,13 @@ pub fn run(a: &Args) {
         return;
     }
     // fault mode: all 65536 ports
+    fault_mode_on();
     for p in 0..=u16::MAX {
         if p as usize % a.nshards == a.shard {
             port_case(&mut r, p, false);
+            if p % 16 == 0 {
+                sequences(&mut r, p, false);
+            }
         }
     }
     // step mode: 200-port alphabet (no other sensitive instruction is executed: the event list is complete)
@@ -122,6 +181,7 @@ pub fn run(a: &Args) {
     for (i, &p) in alpha.iter().enumerate() {
         if i % a.nshards == a.shard {
             port_case(&mut r, p, true);
+            sequences(&mut r, p, true);
         }
     }
     if a.shard == 0 {
